@@ -15,7 +15,11 @@ RULE = ("pairs (base, variant) of random circuits over 1-5 modes, 1-6 commands; 
         "has >=2 commands and the variant differs from the base in exactly one aspect; distinct by (base, variant).")
 ASSUMPTIONS = ["'compute the same thing' in the theorems is equality of the ordered product in any monoid "
                "interpretation that depends only on the compared fields and commutes on disjoint wires",
-               "S2gate, CZgate, CKgate, CXgate(0) and the 50:50 pi/2 beamsplitter are symmetric in their modes"]
+               "mode symmetry of S2gate, CZgate, CXgate(0) and of a beamsplitter with cos(phi) = 0 is proved from the "
+               "documented phase-space rows (symmetric_classes_are_symmetric); for CKgate (non-Gaussian) it is assumed and "
+               "checked by the oracle only structurally",
+               "np.allclose tolerances: a beamsplitter within 1e-8 of the symmetric point is compared as symmetric; the "
+               "theorems speak about the exact point, the oracle about state distance < 1e-5"]
 TRUSTED = ["modelled: Program.__eq__, program_utils.program_equivalence (node attributes + DAG isomorphism); "
            "NetworkX is_isomorphic is trusted to decide attributed DAG isomorphism (model decides it by brute force "
            "and both are compared)"]
